@@ -1676,6 +1676,13 @@ func (self *ReplicationAckDB) ProcessLeaderPushLock(glockIndex uint16, aofLock *
 		lockManager.lockDb.DoAckLock(lock, false)
 		return nil
 	}
+	if lock.locked == 0 {
+		// timed out and rolled back before its record got here: nothing is left to acknowledge
+		self.ackGlocks[glockIndex].Unlock()
+		lockManager := lock.manager
+		lockManager.lockDb.DoAckLock(lock, false)
+		return nil
+	}
 
 	aofId := aofLock.GetAofId()
 	self.commandAofs[glockIndex][lock.command.RequestId] = aofId
